@@ -3,7 +3,7 @@
 From Coq.Strings Require Import Byte String.
 From Coq Require Import List NArith.
 Import ListNotations.
-From V Require Import lib.Bytes model.Rpc proofs.RpcProof.
+From V Require Import lib.Bytes model.Rpc spec.RpcWire proofs.RpcProof.
 
 (* Any sequence of messages written to a stream (every payload non-empty and shorter than 2^31 bytes,
    ANY bytes inside - embedded CRLFCRLF, "Content-Length:" text, multi-byte characters, invalid UTF-8)
@@ -44,14 +44,18 @@ Proof. exact header_counts_bytes_gen. Qed.
 Print Assumptions C18_header_counts_bytes.
 
 (* Concurrent senders never interleave frames: for every program of callers / notifiers / repliers and
-   every schedule, the bytes on the connection are the complete frames of the messages sent so far (in
-   the order the write mutex was taken) followed by at most the header of the current mutex holder. *)
+   every schedule - contexts cancelled at ANY moment (also between a write's header and body), writes of the
+   underlying connection failing at any point after taking any part of what they were given - the bytes on
+   the connection are the complete frames of the messages sent so far (in the order the write mutex was
+   taken) followed by at most: the header of the current mutex holder, or - once the connection has
+   failed - a proper prefix of the one frame whose write failed. *)
 Theorem C18_no_interleave : forall (prog : list (kind * bytes)) (tr : list action) (s : state),
   exec (init prog) tr = Some s ->
   wire s = concat (map frame (sent s)) ++ partial s /\
   (partial s = [] \/
-   exists t, lock s = Some t /\ t_pc (threads s t) = PHeader /\
-             partial s = frame_header (t_payload (threads s t))).
+   (down s = false /\ exists t, lock s = Some t /\ t_pc (threads s t) = PHeader /\
+             partial s = frame_header (t_payload (threads s t))) \/
+   (down s = true /\ exists p k, k < length (frame p) /\ partial s = firstn k (frame p))).
 Proof. exact no_interleave. Qed.
 Print Assumptions C18_no_interleave.
 
@@ -63,27 +67,49 @@ Theorem C18_peer_reads_sent : forall (prog : list (kind * bytes)) (tr : list act
 Proof. exact peer_reads_sent. Qed.
 Print Assumptions C18_peer_reads_sent.
 
+(* Whatever Writes succeed, fail or are cancelled: the complete frames on the connection are those of
+   exactly the writes that returned nil (c.write passed its body: [wrote]), each once, in lock order; and
+   whenever no write is in progress the bytes satisfy the wire specification (spec/RpcWire.v): a conforming
+   reader gets exactly those messages and the bytes end at a frame boundary - or, only on a connection
+   that has failed, inside one frame.  On a connection that has not failed they are whole frames. *)
+Theorem C18_writes_on_wire : forall (prog : list (kind * bytes)) (tr : list action) (s : state),
+  Forall payload_ok (map snd prog) -> exec (init prog) tr = Some s ->
+  sent s = map (fun t => t_payload (threads s t)) (senders s) /\ NoDup (senders s) /\
+  (forall t, In t (senders s) <-> wrote (threads s t) = true) /\
+  (lock s = None -> wire_spec (sent s) (down s) (wire s) = true) /\
+  (lock s = None -> down s = false -> wire s = concat (map frame (sent s))).
+Proof. exact writes_on_wire. Qed.
+Print Assumptions C18_writes_on_wire.
+
+(* A frame cut anywhere before its end makes the reader wait - it never yields a frame or an error that
+   could be mistaken for the end of the message. *)
+Theorem C18_cut_frame_needs_more : forall (p : bytes) (k : nat), payload_ok p -> k < length (frame p) ->
+  read_frame (firstn k (frame p)) = RNeedMore.
+Proof. exact frame_cut_needs_more. Qed.
+Print Assumptions C18_cut_frame_needs_more.
+
 (* Every finished call holds a response that carries its own id and was read off the wire, or its own
-   cancellation (its context was cancelled, while waiting or before the write); finished calls have
-   pairwise different ids.  Any interleaving of id assignment, registration, writes, wire deliveries
+   cancellation (its context was cancelled, while waiting or before the write), or the error of a Write of
+   the underlying connection that failed (the connection is down); finished calls have pairwise different ids.  Any interleaving of id assignment, registration, writes, wire deliveries
    (any ids, any order, duplicates, unknown ids), takes, cancellations and clean-ups. *)
 Theorem C18_call_gets_own_response : forall (prog : list (kind * bytes)) (tr : list action) (s : state),
   exec (init prog) tr = Some s ->
   (forall t, is_call (threads s t) = true -> t_pc (threads s t) = PDone ->
      (exists r, t_ret (threads s t) = Some (Got r) /\ fst r = t_id (threads s t) /\ In (ARead r) tr)
      \/ (t_ret (threads s t) = Some Cancelled /\ t_ctx (threads s t) = true)
-     \/ (t_ret (threads s t) = Some WriteFailed /\ t_ctx (threads s t) = true))
+     \/ (t_ret (threads s t) = Some WriteFailed /\ t_ctx (threads s t) = true)
+     \/ (t_ret (threads s t) = Some TransportErr /\ down s = true))
   /\ (forall t1 t2, is_call (threads s t1) = true -> is_call (threads s t2) = true ->
         t_pc (threads s t1) = PDone -> t_pc (threads s t2) = PDone ->
         t_id (threads s t1) = t_id (threads s t2) -> t1 = t2).
 Proof. exact call_gets_own_response. Qed.
 Print Assumptions C18_call_gets_own_response.
 
-(* When every caller and writer has returned, the pending map is empty, the write mutex is free and the
-   connection carries complete frames only. *)
+(* When every caller and writer has returned, the pending map is empty, the write mutex is free and a
+   connection that has not failed carries complete frames only. *)
 Theorem C18_pending_empty_at_quiescence : forall (prog : list (kind * bytes)) (tr : list action) (s : state),
   exec (init prog) tr = Some s -> quiescent s ->
-  pending s = [] /\ lock s = None /\ wire s = concat (map frame (sent s)).
+  pending s = [] /\ lock s = None /\ (down s = false -> wire s = concat (map frame (sent s))).
 Proof. exact pending_empty_at_quiescence. Qed.
 Print Assumptions C18_pending_empty_at_quiescence.
 
@@ -146,3 +172,36 @@ Example C18_ex_duplicate_reply_blocks_reader :
   | None => None
   end = Some (None, Some ((1, 6), 0), PDone).
 Proof. vm_compute. reflexivity. Qed.
+
+(* ---------- cancellation and failure during a write ---------- *)
+(* the notifier's context is cancelled between its header and its body: the write completes all the same
+   (stream.Write looks at the context only before it writes anything) and the next frame is intact *)
+Example C18_ex_cancel_mid_write :
+  match exec (init ex_prog) [ALock 2; AHeader 2; ACtx 2; ABody 2; AUnlock 2; ASeq 0; AReg 0; ALock 0; AHeader 0; ABody 0; AUnlock 0] with
+  | Some s => Some (t_ret (threads s 2), sent s, senders s, down s, wire_spec (sent s) (down s) (wire s),
+                    bytes_eqb (wire s) (frame (bs "N") ++ frame (bs "A")))
+  | None => None
+  end = Some (Some Sent, [bs "N"; bs "A"], [2; 0], false, true, true).
+Proof. vm_compute. reflexivity. Qed.
+
+(* the connection fails 1 byte into call 0's body: the call returns the error, later writers fail without
+   adding a byte, and the peer reads the complete frames followed by a truncated one *)
+Example C18_ex_transport_fails :
+  match exec (init [(KCall, bs "AAAA"); (KWrite, bs "N"); (KWrite, bs "M")])
+     [ALock 1; AHeader 1; ABody 1; AUnlock 1; ASeq 0; AReg 0; ALock 0; AHeader 0; ABodyFail 0 1; ACleanup 0;
+      ALock 2; AHeaderFail 2 5] with
+  | Some s => Some (t_ret (threads s 0), t_ret (threads s 2), sent s, down s, lock s, pending s,
+                    read_stream (wire s), wire_spec (sent s) (down s) (wire s), step s (AHeader 2))
+  | None => None
+  end = Some (Some TransportErr, Some TransportErr, [bs "N"], true, None, [], ([bs "N"], EndTrunc), true, None).
+Proof. vm_compute. reflexivity. Qed.
+
+(* What the specification excludes: a writer that abandons a frame after its header while the connection
+   stays usable (for instance because it looked at its context again between the header and the body).
+   The next, complete frame is swallowed into the unfinished one; nothing it announces is delivered. *)
+Example C18_ex_abandoned_frame_violates :
+  let big := bs "0123456789012345678901234567890123456789" in
+  wire_spec [bs "N"] false (frame_header big ++ frame (bs "N")) = false /\
+  read_stream (frame_header big ++ frame (bs "N")) = ([], EndTrunc) /\
+  wire_spec [bs "N"] false (frame (bs "N")) = true.
+Proof. vm_compute. repeat split; reflexivity. Qed.
